@@ -100,11 +100,12 @@ static void body(bsx::Ctx& c) {
 			const bool mapFirst = (fb >= 0x80 && fb <= 0x8f) || fb == 0xde || fb == 0xdf;
 			// an ill-formed map into an object target is the known terminate family: run the four source/policy combinations in one child
 			if (!wellFormed && objectTarget(target) && mapFirst) {
-				// quick tier: the fork-per-case subspace is limited to words that start with fixmap(1), fixmap(15) or map16
+				// quick tier: the fork-per-case subspace is limited to words that start with fixmap(1) or map16
 				if (!thorough && bytes.size() > 2 && !(fb == 0x81 || fb == 0xde)) { c.outcome("skipped_in_quick:risky_word"); continue; }
-				c.evals(4);
-				judgeIsolated(c, sigbase + "/map_header_then_illformed", bytes.size(), "bytes=" + bsx::hex(bytes), [&] {
-					Probe worst; for (int st = 0; st < 2; ++st) for (int pol = 0; pol < 2; ++pol) { Probe p = loadMsgPack(target, bytes, st == 1, policyOpts(pol)); if (p.cls == "nonstd" || worst.cls.empty()) worst.cls = p.cls; worst.peak = std::max(worst.peak, p.peak); worst.largest = std::max(worst.largest, p.largest); worst.refused += p.refused; }
+				if (target != 6) continue;   // the three object targets x four source/policy combinations share one child (run with target 6)
+				c.evals(12);
+				judgeIsolated(c, "C02/msgpack/words/target=object_targets/map_header_then_illformed", bytes.size(), "bytes=" + bsx::hex(bytes), [&] {
+					Probe worst; for (int tg = 6; tg <= 8; ++tg) for (int st = 0; st < 2; ++st) for (int pol = 0; pol < 2; ++pol) { Probe p = loadMsgPack(tg, bytes, st == 1, policyOpts(pol)); if (p.cls == "nonstd" || worst.cls.empty()) worst.cls = p.cls; worst.peak = std::max(worst.peak, p.peak); worst.largest = std::max(worst.largest, p.largest); worst.refused += p.refused; }
 					return worst; });
 			} else for (int st = 0; st < 2; ++st) for (int pol = 0; pol < 2; ++pol) {
 				std::string sig = sigbase + (st ? "/stream" : "/mem") + (pol ? "/pol=SS" : "/pol=TT");
